@@ -136,10 +136,14 @@ def run_jws_ver(ctx):
             det = {k: v for k, v in tok.items() if k != "payload"}
             for src, p in (("pay.bin", pay), ("pay.bin", pay + b"x")):
                 for out in (None, "out.bin"):
-                    fs = {"k0.jwk": hx(js(pool[names[0]])), src: hx(p)}
-                    argv = ["jws", "ver", "-i", js(det), "-I", src, "-k", "k0.jwk"] + (["-O", out] if out else [])
-                    ops.append(("cli.run", {"argv": argv, "files": fs, "_tok": dict(det, payload=G.b64u(p)), "_keys": [pool[names[0]]], "_all": False, "_out": out,
-                                            "_pay": p, "_why": "detached payload (%s)" % ("genuine" if p == pay else "altered")}))
+                    for flabel, iargv, files, stdin in input_forms(js(det), compact_of(det) if allprot else None, rng):
+                        fs = dict(files, **{"k0.jwk": hx(js(pool[names[0]])), src: hx(p)})
+                        argv = ["jws", "ver"] + iargv + ["-I", src, "-k", "k0.jwk"] + (["-O", out] if out else [])
+                        x = {"argv": argv, "files": fs, "_tok": dict(det, payload=G.b64u(p)), "_keys": [pool[names[0]]], "_all": False, "_out": out,
+                             "_pay": p, "_why": "detached payload (%s), token %s" % ("genuine" if p == pay else "altered", flabel)}
+                        if stdin is not None:
+                            x["stdin"] = stdin
+                        ops.append(("cli.run", x))
     # the library's verdict on the same inputs
     lib_ops = [("jws.ver", {"jws": a["_tok"], "jwk": a["_keys"], "all": a["_all"]}) for o, a in ops]
     verdicts = ctx.real(lib_ops)
@@ -266,6 +270,10 @@ def run_jws_sig(ctx):
                 ctx.pfails.append(("cli:jws-sig:detach", "detached payload file differs (%s)" % a["_why"], "cli.run", strip(a), r))
             fs["p.bin"] = hx(a["_pay"])
             second.append(("cli.run", {"argv": ["jws", "ver", "-i", text.strip(), "-I", "p.bin", "-a"] + kargs, "files": fs, "_why": a["_why"]}))
+            second.append(("cli.run", {"argv": ["jws", "ver", "-i", "tok.txt", "-I", "p.bin", "-a", "-O", "-"] + kargs, "files": dict(fs, **{"tok.txt": hx(text)}),
+                                       "_why": a["_why"] + ", token from a file", "_pay": a["_pay"], "_nofmt": True}))
+            second.append(("cli.run", {"argv": ["jws", "ver", "-i", "-", "-I", "p.bin", "-a"] + kargs, "files": fs, "stdin": hx(text),
+                                       "_why": a["_why"] + ", token on stdin", "_nofmt": True}))
         else:
             second.append(("cli.run", {"argv": ["jws", "ver", "-i", text.strip(), "-a", "-O", "-"] + kargs, "files": fs, "_why": a["_why"], "_pay": a["_pay"]}))
     def p2(a, real):
@@ -278,7 +286,7 @@ def run_jws_sig(ctx):
     ctx.count("jws-sig", len(ops))
     # fmt: every produced token through the other serializations
     fm = []
-    for o, a in second[:: (3 if ctx.tier == "quick" else 1)]:
+    for o, a in [x for x in second if not x[1].get("_nofmt")][:: (3 if ctx.tier == "quick" else 1)]:
         text = a["argv"][3]
         tok = tok_of_text(text)
         if tok is None:
@@ -371,10 +379,22 @@ def run_jwe(ctx):
                             x["stdin"] = stdin
                         ops.append(("cli.run", x))
         if single:
+            # detached ciphertext: every spelling of the token (JSON / compact with an empty ciphertext field; inline,
+            # file, stdin), the ciphertext bytes from a file; genuine and altered ciphertext; with and without -O
             det = {k: v for k, v in tok.items() if k != "ciphertext"}
-            fs = {"k0.jwk": hx(key_json), "ct.bin": G.b64d(tok["ciphertext"]).hex()}
-            ops.append(("cli.run", {"argv": ["jwe", "dec", "-i", js(det), "-I", "ct.bin", "-k", "k0.jwk"], "files": fs, "_tok": tok, "_keys": [key], "_out": None, "_pt": pt,
-                                    "_why": "detached ciphertext"}))
+            ctb = G.b64d(tok["ciphertext"])
+            for flabel, iargv, files, stdin in input_forms(js(det), jwe_compact(det) if allprot else None, rng):
+                for clabel, cb in (("genuine", ctb), ("altered", ctb[:-1] + bytes([ctb[-1] ^ 1]) if ctb else b"x")):
+                    for out in (None, "pt.bin"):
+                        if ctx.tier == "quick" and clabel == "altered" and out:
+                            continue
+                        fs = dict(files, **{"k0.jwk": hx(key_json), "ct.bin": cb.hex()})
+                        x = {"argv": ["jwe", "dec"] + iargv + ["-I", "ct.bin", "-k", "k0.jwk"] + (["-O", out] if out else []), "files": fs,
+                             "_tok": dict(det, ciphertext=G.b64u(cb)), "_keys": [key], "_out": out, "_pt": pt,
+                             "_why": "detached ciphertext (%s), token %s, -O %s" % (clabel, flabel, out)}
+                        if stdin is not None:
+                            x["stdin"] = stdin
+                        ops.append(("cli.run", x))
     lib_ops = [("jwe.dec", {"jwe": a["_tok"], "jwk": a["_keys"], "rand": "00" * 600}) for o, a in ops]
     for (o, a), v in zip(ops, ctx.real(lib_ops)):
         a["_lib"] = v
@@ -430,6 +450,8 @@ def run_jwe(ctx):
             fs["ct.bin"] = r["files"].get(a["_detach"], "")
             argv += ["-I", "ct.bin"]
         decs.append(("cli.run", {"argv": argv, "files": fs, "_why": a["_why"]}))
+        decs.append(("cli.run", {"argv": ["jwe", "dec", "-i", "tok.txt"] + argv[4:], "files": dict(fs, **{"tok.txt": hx(text)}), "_why": a["_why"] + ", token from a file"}))
+        decs.append(("cli.run", {"argv": ["jwe", "dec", "-i", "-"] + argv[4:], "files": fs, "stdin": hx(text), "_why": a["_why"] + ", token on stdin"}))
         # and through fmt into the other serialization
         tokj = json.loads(text) if text.startswith("{") else None
         if not a["_detach"] and not (tokj is not None and ("header" in tokj or "unprotected" in tokj or "recipients" in tokj)):
